@@ -3,7 +3,7 @@ use crate::errors::{Result, SvgdxError};
 use crate::events::InputEvent;
 use crate::expression::eval_attr;
 use crate::position::{BoundingBox, Size};
-use crate::types::{attr_split, extract_urlref, strp, AttrMap, ClassList, ElRef};
+use crate::types::{attr_split, extract_urlref, strp, AttrMap, ClassList, ElRef, OrderIndex};
 use crate::TransformConfig;
 
 use std::cell::RefCell;
@@ -175,6 +175,19 @@ impl ElementMap for TransformerContext {
     }
 
     fn get_element_bbox(&self, el: &SvgElement) -> Result<Option<BoundingBox>> {
+        self.clipped_element_bbox(el, &mut Vec::new())
+    }
+}
+
+impl TransformerContext {
+    /// Implements `get_element_bbox`, with `clip_seen` holding the clip-path
+    /// targets already followed, so a chain of clip-paths which leads back to
+    /// itself is an error rather than unbounded recursion.
+    fn clipped_element_bbox(
+        &self,
+        el: &SvgElement,
+        clip_seen: &mut Vec<OrderIndex>,
+    ) -> Result<Option<BoundingBox>> {
         let target_el = el.get_target_element(self)?;
         let mut el_bbox = target_el.bbox()?;
 
@@ -202,10 +215,18 @@ impl ElementMap for TransformerContext {
             )))?;
             let clip_el = self
                 .get_element(&clip_id)
-                .ok_or(SvgdxError::ReferenceError(clip_id))?;
-            if let ("clipPath", Some(clip_bbox)) =
-                (clip_el.name.as_str(), self.get_element_bbox(clip_el)?)
-            {
+                .ok_or(SvgdxError::ReferenceError(clip_id.clone()))?;
+            if clip_seen.contains(&clip_el.order_index) {
+                return Err(SvgdxError::CircularRefError(format!(
+                    "{} already seen",
+                    clip_id
+                )));
+            }
+            clip_seen.push(clip_el.order_index.clone());
+            if let ("clipPath", Some(clip_bbox)) = (
+                clip_el.name.as_str(),
+                self.clipped_element_bbox(clip_el, clip_seen)?,
+            ) {
                 el_bbox = bbox.intersect(&clip_bbox);
             }
         }
